@@ -16,7 +16,8 @@ EXPLANATION = (
     "the call-parsing path tests a field of a node of the analysed program's AST (such an assert turns an unusual "
     "but valid call into an internal AssertionError).  R06.3: inside a changer, the call-side mapping drops a component "
     "only under the same `self.index` selection under which the definition side drops the corresponding component "
-    "(sibling agreement).  The positional/keyword mapping arithmetic and the changer "
+    "(sibling agreement).  R06.4: the call-site loop analyses every resource, or skips one only on a test of every "
+    "finder name.  The positional/keyword mapping arithmetic and the changer "
     "pipeline are not decided."
 )
 ASSUMPTIONS = ["alignment rule of the language reference as recorded in sa/grammar.py DEFAULT_ALIGNMENT",
@@ -145,3 +146,33 @@ def check(ctx, res) -> None:
                         f"{c.name}.change_argument_mapping drops mapping.{mcomp} under the index selection {sorted(m_sel)} while change_definition_info drops "
                         f"{dcomp} under {[sorted(x) for x in d_sel]}: call sites lose the values bound to a parameter that the definition keeps")
     res.floor("R06.3", "changer components removed on the call side", n3, 1)
+
+    # ---- R06.4 call-site discovery looks at every resource: a path through the resources loop that skips the
+    # occurrence analysis is only sound if its condition rules out every name the finders search for
+    cc = idx.need_func("rope.refactor.change_signature.ChangeSignature._change_calls")
+    cfg = CFG(cc.node)
+    finder_names = []
+    for c in calls_in(cc.node):
+        if call_name(c) == "create_finder" and len(c.args) >= 2:
+            finder_names.append(ast.unparse(c.args[1]))
+    loops = [n for n in cfg.nodes if n.kind == "loop" and isinstance(n.ast, ast.For)
+             and any(call_name(x) == "get_changed_module" for x in calls_in(n.ast))]
+    if not loops or not finder_names:
+        raise AnalysisError("anchor=_change_calls: resources loop / finders not found")
+    lp = loops[0]
+    body_entry = [b for b, l in cfg.succ[lp.id] if l == "true"][0]
+    analysis = [n.id for n in cfg.nodes if n.ast is not None and n.kind in ("stmt", "test")
+                and any(call_name(x) == "get_changed_module" for x in calls_in(n.ast))]
+    skipping = lp.id in cfg.reachable(body_entry, avoid_nodes=analysis, labels={"", "true", "false", "continue", "case", "nomatch"})
+    ok = True
+    tested = set()
+    if skipping:
+        # conditions on the skipping paths: textual membership tests `X in <text>` / `X not in <text>`
+        for n in cfg.nodes:
+            if n.kind == "test" and isinstance(n.ast, ast.Compare) and isinstance(n.ast.ops[0], (ast.In, ast.NotIn)):
+                tested.add(ast.unparse(n.ast.left))
+        ok = all(fn in tested for fn in finder_names)
+    res.add("R06.4", "_change_calls|every-resource", ok, cc.where,
+            "every resource of the loop reaches the occurrence analysis" + (" (or is skipped only when none of the finder names occurs in it)" if skipping else "") if ok else
+            f"_change_calls can skip a module without analysing it, on a condition that tests {sorted(tested) or 'nothing'} but the finders search for "
+            f"{finder_names}: for a constructor change, modules that call C(...) without mentioning __init__ keep their old argument order")
